@@ -755,6 +755,36 @@ pub fn interfere_with(eng: &GameState, mo: &Model) {
             let _ = t.take_action(a);
         }
     });
+    // the same board with the other side to move, and at another step of the turn (anything remembered
+    // under a key that leaves out the side or the step is now stale for the state itself)
+    let _ = guard(|| {
+        if let Ok(o) = engine_from_position(&mo.board, !mo.gold_to_move, 9) {
+            let _ = o.valid_actions();
+            let _ = o.is_terminal();
+            let _ = o.transposition_hash();
+        }
+        let other_step = crate::special::build_state(&mo.board, mo.gold_to_move, (mo.step + 1) % 4, arimaa_engine_step::PushPullState::None);
+        let _ = other_step.valid_actions();
+        let _ = other_step.valid_actions_no_rep();
+        let _ = other_step.is_terminal();
+        let _ = other_step.can_pass(true);
+        let _ = other_step.transposition_hash();
+        for a in other_step.valid_actions_no_rep().iter().take(30) {
+            let _ = other_step.trapped_animal_for_action(a);
+        }
+    });
+    let _ = guard(|| {
+        let _ = t.valid_actions();
+        let _ = t.valid_actions_no_rep();
+        let _ = t.is_terminal();
+        for a in own_actions.iter() {
+            if let Action::Move(sq, _) = a {
+                if t.piece_board().piece_type_at_square(sq).is_some() {
+                    let _ = t.trapped_animal_for_action(a);
+                }
+            }
+        }
+    });
     // the state's own has_move with a board that is not its own (the twin's, asked last)
     let _ = guard(|| {
         let _ = eng.has_move(t.piece_board());
